@@ -94,8 +94,11 @@ def _gen_c16(rng, seed, tier):
                                           "flow_controls", "press_controls", "heat_exchangers", "heat_consumers"]),
             "n": rng.randint(1, 4), "seed": rng.randrange(1 << 30),
             "std_type": rng.choice(PIPE_STD), "defaults_fn": rng.choice(sorted(DOCUMENTED_DEFAULTS))}
+    # "on empty and populated nets of every sector": a restricted sector starts without the tables of the
+    # other sectors' components, the create functions add them on demand
+    sector = rng.choice(["all", "all", "all", "gas", "water", "heat", "None"])
     return {"engine": ENGINE, "prop": "C16", "seed": seed, "tier": tier, "fluid": fluid, "ops": ops, "tail": tail,
-            "empty_start": True}
+            "empty_start": True, "sector": sector}
 
 
 CREATE_FUNCS = ["create_junction", "create_junction", "create_sink", "create_source", "create_mass_storage", "create_ext_grid",
@@ -486,8 +489,9 @@ def check_integrity(net):
 
 
 def _exec_c16(trace, res):
-    net = pp.create_empty_network(fluid=trace["fluid"])
-    res.sig_parts.append(trace["fluid"])
+    from pandapipes.pandapipes_net import Sector
+    net = pp.create_empty_network(fluid=trace["fluid"], sector=Sector(trace.get("sector", "all")))
+    res.sig_parts.append(trace["fluid"] + ":" + trace.get("sector", "all"))
     for oi, op in enumerate(trace["ops"]):
         fn, kw, fault = op["fn"], copy.deepcopy(op["kw"]), op.get("fault")
         f = getattr(pp, fn)
@@ -521,7 +525,9 @@ def _exec_c16(trace, res):
             for x in d:
                 res.violate("C16", "C16/not-atomic:%s:%s:%s" % (fn, fault or "valid-args", x.split(".")[0]), "%s after %s" % (x, outcome), oi)
             if fault is None:
-                res.violate("C16", "C16/valid-call-rejected:%s:%s" % (fn, outcome[4:]), repr(ret)[:200], oi)
+                import re as _re
+                slug = _re.sub(r"[^a-z]+", "-", str(ret).lower())[:40].strip("-")
+                res.violate("C16", "C16/valid-call-rejected:%s:%s:%s" % (fn, outcome[4:], slug), repr(ret)[:200], oi)
             continue
         # ---- success ------------------------------------------------------------------------------
         if fault in ("missing-junction", "missing-pipe", "unknown-std-type", "duplicate-index", "unknown-et", "pipe-not-at-junction"):
@@ -615,6 +621,8 @@ def _effective_fault(net, fn, kw, table):
         if kw.get("et") == "ju" and not set(els) <= J:
             return "missing-junction"
         if kw.get("et") == "pi":
+            if "pipe" not in net:
+                return "missing-pipe"
             P = set(net.pipe.index) if "pipe" in net else set()
             if not set(els) <= P:
                 return "missing-pipe"
@@ -623,6 +631,12 @@ def _effective_fault(net, fn, kw, table):
             for j, p in zip(js, els):
                 if j not in (net.pipe.at[p, "from_junction"], net.pipe.at[p, "to_junction"]):
                     return "pipe-not-at-junction"
+    if "std_type" in kw:
+        comp = "pump" if table == "pump" else "pipe"
+        have = net.get("std_types", {}).get(comp, {})
+        sts = kw["std_type"] if isinstance(kw["std_type"], list) else [kw["std_type"]]
+        if any(st not in have for st in sts):
+            return "unknown-std-type"   # (the sector's library does not hold it)
     if "index" in kw and table in net:
         idx = kw["index"] if isinstance(kw["index"], list) else [kw["index"]]
         if set(idx) & set(net[table].index):
